@@ -68,7 +68,7 @@ func triggerFree(ext, d string) bool {
 	case "typographer":
 		return !strings.ContainsAny(d, "'\"-.<>")
 	case "linkify":
-		return !strings.ContainsAny(d, ":@") && !strings.Contains(strings.ToLower(d), "www.")
+		return !strings.ContainsAny(d, ":@") && !strings.Contains(d, "www.") // byte for byte: "Www." is no trigger
 	case "cjk", "cjk3", "cjkes":
 		for i := 0; i < len(d); i++ {
 			if d[i] >= 0x80 {
@@ -204,7 +204,7 @@ func runC11(c *Ctx) {
 	ev := c.Ev
 	ev.Assumptions = []string{
 		"TLC/SANY, Json/IOUtils; outputs compared line by line after injective renaming (Meta.tla SameLaw)",
-		"trigger filters are the statement's byte sets; 'www.' is matched case-insensitively (stricter filter, never an alarm)",
+		"trigger filters are the statement's byte sets, byte for byte ('Www.' is not 'www.')",
 	}
 	ev.Set("rule", "case = one (extension, base configuration, document) instance of the conservativity law; distinct = distinct such triples; non-trivial = the document contains Markdown-significant bytes")
 	loadCorpus()
@@ -252,6 +252,10 @@ func runC11(c *Ctx) {
 		docs = append(docs, sd.Doc)
 	}
 	docs = append(docs, repoDocs...)
+	// near misses of every extension's trigger syntax, alone and inside the usual inline / block contexts
+	for _, n := range c11NearMiss {
+		docs = append(docs, n+"\n", "a "+n+" b\n", "*"+n+"*\n", "- "+n+"\n  "+n+"\n", "> "+n+"\n", "# "+n+"\n", n+"\n"+n+"\n", "("+n+")\n", "["+n+"](/u)\n", "**"+n+"** "+n+"\n\n"+n+"\n===\n")
+	}
 	// words x line endings x inline wrappers (soft / hard breaks next to wide and narrow characters)
 	for _, w1 := range []string{"語", "a", "é", "、", "a!", "（"} {
 		for _, w2 := range []string{"語", "b", "。", "!b"} {
@@ -322,4 +326,27 @@ func runC11(c *Ctx) {
 	for i := 0; i < len(jobs); i += len(jobs)/5 + 1 {
 		c.Sample("law-instance", 5, map[string]interface{}{"extension": sides[jobs[i].s].cs.Ext, "others": sides[jobs[i].s].cs.Others, "doc": clip(docs[jobs[i].d], 100)})
 	}
+}
+
+// c11NearMiss: spellings one step away from an extension's trigger syntax (different letter case,
+// a look-alike character, a missing or doubled character). A document made of them contains no
+// trigger byte of the extension concerned, so enabling it must change nothing.
+var c11NearMiss = []string{
+	// linkify: "www." in other letter cases, neighbours of the prefixes, schemes without ':'
+	"Www.example.com", "WWW.EXAMPLE.COM", "wWw.a.bc/d?e=f", "wwW.a.bc", "ww.example.com", "wwww.example.com", "www,example.com", "www example.com", "xwww.a.bc",
+	"http //a.bc", "https;//a.bc/d", "HTTP//A.BC", "ftp.a.bc", "mailto a.bc", "a.b(at)c.de", "a.b\uff20c.de", "example.com", "sub.example.co.uk/path",
+	// table: delimiter rows without '-'
+	"| a | b |\n| = | = |\n| c | d |", "| a |\n|:=:|\n| b |", "| a |\n| \u2014 |\n| b |", "a | b\n_ | _\nc | d", "| a |\n| ~ |\n| b |", "| a |\n|:|\n| b |", "|a|b|\n|*|*|",
+	// strikethrough: other doubled marks
+	"^^a^^", "==a==", "\uff5e\uff5ea\uff5e\uff5e", "++a++",
+	// task list: boxes that are not '['
+	"(x) a", "( ) a", "{x} a", "x] a", "\u2610 a", "\u2611 a",
+	// footnote: brackets and carets that are not "[^"
+	"a[1]\n\n[1]: /u", "a [ ^1]", "a^1", "a[1^]", "a[\\^1]", "a (^1)", "[ ^1]: b", "^[inline note]x"[:2] + " b",
+	// definition list: markers that are not ':'
+	"a\n; b", "a\n\uff1a b", "a\n~ b", "a\n  b", "a\n= b",
+	// typographer: sequences near its substitutions, without ' \" - . < >
+	"(c) (r) (tm)", "(C) (R) (TM)", "1/2 3/4", "a,,b", "``a``", "+/+", "a\u2026b", "a\u2013b \u2014 c", "\u00aba\u00bb", "\u201ca\u201d \u2018b\u2019", ",,a,,", "a , b ,c", "*,*", "[,]",
+	// cjk (pure ASCII, no backslash-space): backslashes and breaks
+	"a\\\nb", "a \\b", "a\\", "a\\\tb", "a\\\n\\b",
 }
